@@ -651,6 +651,61 @@ std::string do_fileblk(const Case& c) {
 	return os.str();
 }
 
+// bsextra ver=<f,u,s> n=<verts> k=<extra floats per vertex>: a BSTriShape built through the public API with
+// full-precision vertices that carry k extra floats each (a layout no sample file has): raw save, load, raw save, ...
+std::string do_bsextra(const Case& c) {
+	NifFile nif;
+	nif.Create(parse_ver(c.get("ver")));
+	int n = static_cast<int>(c.geti("n"));
+	int k = static_cast<int>(c.geti("k"));
+	std::vector<Vector3> verts;
+	std::vector<Vector2> uvs;
+	std::vector<Triangle> tris;
+	for (int i = 0; i < n; ++i) {
+		verts.emplace_back(static_cast<float>(i) * 0.5f, static_cast<float>((i * 7) % 5), static_cast<float>(i % 3) - 1.0f);
+		uvs.emplace_back(static_cast<float>(i % 4) * 0.25f, static_cast<float>(i % 2));
+	}
+	for (int i = 2; i < n; ++i)
+		tris.emplace_back(static_cast<uint16_t>(0), static_cast<uint16_t>(i - 1), static_cast<uint16_t>(i));
+	NiShape* shape = nif.CreateShapeFromData("s", &verts, &tris, &uvs, nullptr);
+	auto bs = dynamic_cast<BSTriShape*>(shape);
+	if (!bs)
+		return "NOTBS";
+	bs->SetFullPrecision(true);
+	for (int i = 0; i < n; ++i)
+		for (int e = 0; e < k; ++e)
+			bs->vertData[static_cast<size_t>(i)].extra.push_back(static_cast<float>(i + e) * 0.125f);
+	NifSaveOptions raw;
+	raw.optimize = false;
+	raw.sortBlocks = false;
+	std::ostringstream os;
+	std::stringstream s1;
+	int r1 = nif.Save(s1, raw);
+	std::string b1 = s1.str();
+	os << "save=" << r1 << ":" << b1.size();
+	std::string prev = b1;
+	for (int round = 2; round <= 4; ++round) {
+		std::stringstream in(prev);
+		NifFile re;
+		int lrc = re.Load(in);
+		if (lrc != 0) {
+			os << " load" << round << "=" << lrc;
+			return os.str();
+		}
+		size_t nex = 0;
+		for (auto sh : re.GetShapes())
+			if (auto b = dynamic_cast<BSTriShape*>(sh))
+				if (!b->vertData.empty())
+					nex = b->vertData.front().extra.size();
+		std::stringstream so;
+		int rr = re.Save(so, raw);
+		std::string cur = so.str();
+		os << " r" << round << "=" << rr << ":" << cur.size() << ":" << (cur == prev) << ":" << nex;
+		prev = cur;
+	}
+	return os.str();
+}
+
 // resave name=<sample> opts=raw|default [rounds=N] [dump=1]: load a sample file and save it N times
 // from the loaded object, then reload the last output and save again (fixed point test)
 std::string do_resave(const Case& c) {
@@ -723,9 +778,9 @@ int oracle_blocks(int, char**) {
 				os << (i ? "," : "") << names[i];
 			r = os.str();
 		}
-		else if (c.op == "blk" || c.op == "reput" || c.op == "resave" || c.op == "rtrunc" || c.op == "stale" || c.op == "save3" || c.op == "fileblk") {
+		else if (c.op == "blk" || c.op == "reput" || c.op == "resave" || c.op == "rtrunc" || c.op == "stale" || c.op == "save3" || c.op == "fileblk" || c.op == "bsextra") {
 			try {
-				r = c.op == "blk" ? do_blk(c) : (c.op == "reput" ? do_reput(c) : (c.op == "rtrunc" ? do_rtrunc(c) : (c.op == "stale" ? do_stale(c) : (c.op == "save3" ? do_save3(c) : (c.op == "fileblk" ? do_fileblk(c) : do_resave(c))))));
+				r = c.op == "bsextra" ? do_bsextra(c) : c.op == "blk" ? do_blk(c) : (c.op == "reput" ? do_reput(c) : (c.op == "rtrunc" ? do_rtrunc(c) : (c.op == "stale" ? do_stale(c) : (c.op == "save3" ? do_save3(c) : (c.op == "fileblk" ? do_fileblk(c) : do_resave(c))))));
 			}
 			catch (const std::exception& e) {
 				r = std::string("EXC:") + e.what();
